@@ -20,10 +20,11 @@ theorem C03_negative_zero_counterexample :
     int32OfRaw (some .onec) 8 0xFF = 0 ∧ (int32Raw (some .onec) 8 0).toNat = 0 ∧
     int32OfRaw (some .sm) 8 0x80 = 0 ∧ (int32Raw (some .sm) 8 0).toNat = 0 := by decide
 
-/-- **C03, flat composite tier (pure level of the model).** A description of positioned `A_INT32` objects whose
+/-- **C03, flat composite tier (pure level of the model).** A description of positioned `A_INT32` / `A_UINT32` objects whose
     claims are pairwise disjoint (`PairDisj`, a value-independent property of the description), a PDU in which all
     objects fit (`Fits`), whose every bit is claimed by some object (`ClaimedBy` — "all bits described by
-    value-carrying parameters") and whose raw patterns are canonical (`Canon` — no negative zero): encoding the
+    value-carrying parameters") and whose raw patterns are canonical (`Canon` — no negative zero; every pattern of an
+    unsigned object is canonical): encoding the
     values the decoder returns (`reenc` pairs every object with its decoded value) into a fresh message reproduces
     the PDU byte for byte, with no overlap warning. `encAll` is the pure form of the model's encoder
     (`Proofs/FlatMsg.lean`: `encodeMessage_flat`), `decVals` of its decoder. -/
@@ -36,7 +37,7 @@ theorem C03_reencode_flat (os : List Obj) (pdu : Bytes) (hok : ∀ o ∈ os, o.o
 
 /-- **Overlap warning ⇒ static overlap** (C02's "warning exactly when two objects claim the same bit", one
     direction, flat tier): a description whose objects are pairwise disjoint never produces an overlap warning. -/
-theorem C03_no_warning_without_overlap (ovs : List (Obj × Int)) (s : EncState)
+theorem C03_no_warning_without_overlap (ovs : List (Obj × IVal)) (s : EncState)
     (hpd : PairDisj s.origin (ovs.map (·.1)) s.cursorByte) (hfree : Free s (ovs.map (·.1))) :
     (encAll ovs s).warn = s.warn := encAll_nowarn ovs s hpd hfree
 
